@@ -88,7 +88,7 @@ def s1(d: str, lazy: bool = False) -> str:
     )
 
 
-def s2(d: str, lazy: bool = False) -> str:
+def s2(d: str, lazy: bool = False, search: str = "nearest_shortest_queue", name: str = "s2") -> str:
     S = sites()
     c0, ca, cb = tie_across_search_cells()
     write_global_config(d, log_stats=True, lazy=lazy)
@@ -112,9 +112,9 @@ def s2(d: str, lazy: bool = False) -> str:
     reqs = [("r0", S["A"], S["M1"], 400, 1), ("r1", S["N2"], S["M2"], 700, 1)]
     prices = [(0, h3.h3_to_parent(S["A"], 5), "DCFC", 0.291), (0, h3.h3_to_parent(S["A"], 7), "DCFC", 0.137), (0, h3.h3_to_parent(S["A"], 7), "LEVEL_2", 0.077)]
     return write_scenario(
-        d, "s2", start=0, end=1800, step=60, cancel=300, vehicles=vehicles, requests=reqs,
+        d, name, start=0, end=1800, step=60, cancel=300, vehicles=vehicles, requests=reqs,
         bases=[("b0", S["M1"], None, 1)], stations=stations, prices=prices, price_key="geoid",
-        dispatcher=LOW_DISPATCH,
+        dispatcher=dict(LOW_DISPATCH, charging_search_type=search),
     )
 
 
@@ -171,6 +171,8 @@ BUILDERS = {
     "S1": (s1, 25),
     "S2": (s2, 30),
     "S3": (s3, 35),
+    # S2 under the other station-search strategy (estimated time to finish charging instead of distance x queue)
+    "S2t": (lambda d, lazy=False: s2(d, lazy, search="shortest_time_to_charge", name="s2t"), 30),
     "S5": (lambda d, lazy=False: shipped(d, "denver_demo.yaml", 240, lazy), 240),
     "S6": (lambda d, lazy=False: shipped(d, "denver_demo_fleets.yaml", 240, lazy), 240),
 }
